@@ -66,6 +66,7 @@ OPS = [
     ("PRED", r"\.is_some\(\)", ".is_none()"), ("PRED", r"\.is_none\(\)", ".is_some()"), ("PRED", r"\.is_ok\(\)", ".is_err()"), ("PRED", r"\.is_err\(\)", ".is_ok()"),
     ("PRED", r"\.starts_with\(", ".ends_with("), ("PRED", r"\.ends_with\(", ".starts_with("),
     ("LIT", r"(?<![\w\.])(\d+)(?![\w\.])", None),
+    ("MCD", r"\.(to_lowercase|to_uppercase|to_ascii_lowercase|trim|trim_end|trim_start)\(\)", ""),
 ]
 SDL = re.compile(r"^[ \t]*(?!let |return|break|continue|//|\}|pub |fn |use |mod |if |else|while |for |loop|match |#)[\w\.\(\)\[\]&\*: <>,'\"!\-\+=/\{\}\|\\%\?]+;[ \t]*$")
 
